@@ -31,10 +31,19 @@ def run(chk):
     # WAL on (the mode is not persisted: it is switched on again after every reopen)
     relrun.standard(chk, relevant, signature, focus=focus, config_ops=wal, reopen_ops=wal, quick=(3, 1800), thorough=(4, 30000), walks_quick=(120, 12), walks_thorough=(1200, 20), weighted_walks=True)
     cov_on = chk.cov
+    # WAL on, checkpoints issued as the statement PRAGMA wal_checkpoint, and automatic checkpoints at practically every
+    # commit (threshold 1): the three ways a checkpoint comes about
+    auto = wal + [{"k": "exec", "sql": "PRAGMA wal_checkpoint_threshold=1"}]
+    R.CHECKPOINT_OPS = [{"k": "exec", "sql": "PRAGMA wal_checkpoint"}]
+    try:
+        relrun.standard(chk, relevant, signature, focus=focus, config_ops=auto, reopen_ops=auto, quick=(3, 900), thorough=(4, 15000), walks_quick=(60, 12), walks_thorough=(600, 20), weighted_walks=True)
+    finally:
+        R.CHECKPOINT_OPS = [{"k": "checkpoint"}]
+    cov_auto = chk.cov
     chk.cov = dict(cov_on)
     for k in ("traces_validated_against_impl", "behaviours_replayed", "random_walk_steps_replayed", "conforming", "abandoned_prefix_diverged"):
-        chk.cov[k] = cov_off[k] + cov_on[k]
-    chk.cov["configurations"] = ["wal off", "wal on"]
+        chk.cov[k] = cov_off[k] + cov_on[k] + cov_auto[k]
+    chk.cov["configurations"] = ["wal off, checkpoint() call", "wal on, checkpoint() call", "wal on, PRAGMA wal_checkpoint + automatic checkpoints (threshold 1)"]
 
 
 def replay(chk, path):
